@@ -4,6 +4,7 @@ CONSTANTS
   Evil = 2
   ClaimSet = {1}
   NoteSet = {0, 1}
+  Services = {"a"}
   MaxNet = 3
   MaxBlobs = 2
   MaxClock = 1
